@@ -57,7 +57,9 @@ LEVEL = {'text': 'Machine-checked, 30 theorems closed under the global context, 
 RULE = ('cases: every seed object under seeds/c11 and every ELF under test/testfiles_for_unittests, plain and re-encoded '
         '(gABI and legacy framing built by the Coq encoders at zlib levels 0-9, all/some/only-shrinking sections; objcopy '
         'zlib / zlib-gnu / only-keep-debug + debuglink variants; debug links with right and wrong CRC, with and without a '
-        'loader, follow_links on/off; .gnu_debugaltlink / .debug_sup; call sequences on one ELFFile object (each answer = the stateless view of its own flags); pairs carrying the '
+        'loader, follow_links on/off; .gnu_debugaltlink / .debug_sup; unstripped files with their own info plus a debug link; 300 KB runs inside random data (multi-block zlib streams, real library only); '
+        'the stock load_from_path loader on files in a temporary directory with ASCII / UTF-8 / non-UTF-8 link and directory names; '
+        'call sequences on one ELFFile object (each answer = the stateless view of its own flags); pairs carrying the '
         'same NT_GNU_BUILD_ID note with per-byte CRC corruptions and payload modifications; two-hop chains debug link -> supplementary link (own builders and the '
         'dwz-produced test files whose DIEs use the alt/sup forms); keep-debug = unobserved sections made SHT_NOBITS), presence truth table over all subsets of {.debug_info, .zdebug_info, '
         '.eh_frame, .gnu_debuglink, .gnu_debugaltlink, .debug_sup} x strict x loader x class x byte order on section-only files, '
@@ -391,6 +393,29 @@ def gen(ctx):
     for name in tests:
         if name.endswith('.debug') and ('altlink' in name or 'debugsup' in name):      # dwz-produced: alt/sup FORMS in the DIEs
             cases.append(('chain', ['test:' + name, '', '', 'test', rng.getrandbits(32)]))
+    # files that carry their OWN debug info (either naming, or gABI-compressed) AND a .gnu_debuglink: the link is inert
+    for k, name in enumerate(seeds):
+        other = seeds[(k + 4) % len(seeds)]
+        cases.append(('link_own', ['seed:' + name, 'seed:' + other, ['zgnu', 'plain', 'gabi'][k % 3],
+                                   ['right', 'wrong'][(k // 3) % 2], rng.getrandbits(32)]))
+        if k % 4 == 0:
+            cases.append(('link_own', ['seed:' + name, 'seed:' + other, 'zgnu', 'right', rng.getrandbits(32)]))
+    # long highly compressible runs inside incompressible data: multi-block zlib streams whose middle block expands
+    # far beyond any fixed per-block output bound (both framings)
+    for le in (0, 1):
+        for is64 in (0, 1):
+            for T in ('zgnu', 'gabi'):
+                for shape in ('zeros', 'repeat'):
+                    cases.append(('bigrun', [le, is64, T, shape, rng.choice([1, 6, 9]), rng.getrandbits(32)]))
+    # the STOCK stream loader (ELFFile.load_from_path / make_relative_loader) on real files in a temporary directory
+    small = [n for n in seeds if n.endswith('_exe')][:3] or seeds[:3]
+    k = 0
+    for lk in ('debuglink', 'alt', 'sup'):
+        for nc in ('ascii', 'utf8', 'latin1', 'subdir'):
+            for dc, pt in (('ascii', 'bytes'), ('ascii', 'str'), ('utf8', 'str'), ('latin1', 'bytes')):
+                cases.append(('stock_loader', ['seed:' + small[k % len(small)], 'seed:' + small[(k + 1) % len(small)],
+                                               lk, nc, dc, pt, rng.getrandbits(32)]))
+                k += 1
     # call sequences on ONE ELFFile object: the answer to a call depends on its own arguments only
     seqs = [[(1, 1), (1, 0)], [(1, 0), (1, 1)], [(1, 1), (0, 0), (1, 1), (0, 1)], [(0, 0), (1, 1), (1, 0), (0, 1), (0, 0)]]
     for k in range(0, len(seeds), ctx.scale(3, 1)):
@@ -989,6 +1014,118 @@ def h_chain(ctx, kind, a):
     ctx.bump('chain_sup', 'loaded' if (spec != 'rejected' and spec[2] != 'none') else 'absent')
 
 
+def h_link_own(ctx, kind, a):
+    """an UNSTRIPPED file (own .debug_info / .zdebug_info / gABI-compressed .debug_info) that also carries a
+    .gnu_debuglink to another file: the link is not followed, the view is the file's own (C11_debuglink_inert)"""
+    src, other_src, naming, crcmode, seed = a
+    elf, other = _elf(_load(src)), _load(other_src)
+    orig = elf.img
+    if naming != 'plain':
+        B = Builder()
+        plan = plan_gabi(elf, 6, 'all', seed, B) if naming == 'gabi' else plan_zgnu(elf, 6, 'all', seed, B)
+        bodies = yield B.reqs
+        if not plan:
+            raise Skip('nothing to re-encode')
+        elf = _elf((apply_gabi if naming == 'gabi' else apply_zgnu)(elf, plan, bodies))
+    name = b'other/file.debug'
+    (c,) = yield [['crc', other]]
+    crc = c[2] if crcmode == 'right' else c[2] ^ 0x00010000
+    (body,) = yield [['debuglink_body', elf.le, name, b'\0' * (3 - len(name) % 4), crc]]
+    timg = U.rewrite(elf, add=[dict(name=b'.gnu_debuglink', body=body, addralign=4)])
+    fs = {name: other}
+    iv = impl_view(timg, fs, True, True)
+    if len(timg) > MODEL_MAX or len(other) > MODEL_MAX:
+        ctx.bump('model_skipped_large', kind)
+        want = split_impl(impl_view(orig, None, True, True))[0]
+        ctx.record(kind, a, impl=data_slots(split_impl(iv)[0]), spec=data_slots(want), model=None, in_domain=want != 'rejected',
+                   nontrivial=True, key='C11/link-own-info-ignored')
+        return
+    tbl = yield from _tbl_for([timg, orig, other])
+    (m, s_t), (mo, s_o) = yield [_view_req(timg, fs, 1, 1, True, tbl), _view_req(orig, None, 1, 1, False, tbl)]
+    spec = canon_spec(s_t)
+    _record_view(ctx, kind, a, iv, m, spec, key='link-own-info-ignored', in_domain=spec != 'rejected')
+    o_core = canon_spec(s_o)
+    ctx.record('link_own_data', a, impl=data_slots(split_impl(iv)[0]), spec=data_slots(o_core), model=None,
+               in_domain=o_core != 'rejected', nontrivial=True, key='C11/link-own-info-ignored')
+    d_o = impl_dump(orig, None, eh=False)
+    ctx.record('link_own_dump', a, impl=impl_dump(timg, fs, eh=False), spec=d_o, model=None, in_domain=d_o[0] != 'err',
+               nontrivial=True, key='C11/link-own-info-ignored')
+
+
+def h_bigrun(ctx, kind, a):
+    """sections far larger than the model handles: the real library on the re-encoded file against the real library on
+    the plain file (bodies still come from the Coq encoders; the zlib streams span several 4096-byte input blocks and a
+    middle block inflates to hundreds of KB)"""
+    le, is64, T, shape, level, seed = a
+    rng = _mk_rng(seed)
+    rnd = lambda n: bytes(rng.getrandbits(8) for _ in range(n))
+    run = b'\0' * 300000 if shape == 'zeros' else (rnd(7) * 50000)[:300000]
+    big = rnd(rng.randrange(4500, 6000)) + run + rnd(rng.randrange(4500, 6000))
+    secs = [(b'.text', 1, 6, 0x1000, rnd(16)), (b'.debug_info', 1, 0, 0, big), (b'.debug_abbrev', 1, 0, 0, rnd(40)),
+            (b'.debug_str', 1, 0, 0, rnd(3000) + b'\0' * 200000 + rnd(5000))]
+    orig = U.build_elf(bool(le), bool(is64), 62, 0, secs)
+    elf = U.Elf(orig)
+    B = Builder()
+    plan = plan_gabi(elf, level, 'all', seed, B) if T == 'gabi' else plan_zgnu(elf, level, 'all', seed, B)
+    bodies = yield B.reqs
+    timg = (apply_gabi if T == 'gabi' else apply_zgnu)(elf, plan, bodies)
+    blocks = max((len(p[-1]) + 4095) // 4096 for p in plan)
+    want = split_impl(impl_view(orig, None, True, False))[0]
+    got = split_impl(impl_view(timg, None, True, False))[0]
+    ctx.record(kind, a, impl=got, spec=want, model=None, in_domain=want != 'rejected', nontrivial=blocks >= 3,
+               key='C11/bigrun-%s-view-differs' % T, detail={'input_blocks': blocks})
+    ctx.bump('bigrun_blocks', str(min(blocks, 4)) + ('+' if blocks >= 4 else ''))
+
+
+NAME_CLASSES = {'ascii': b'lnk_plain.debug', 'utf8': 'd\u00e9bug_\u00fcn\u00ef_\u4e2d.debug'.encode('utf-8'),
+                'latin1': b'd\xe9bug_\xfc\xff.debug', 'subdir': b'sub/d\xe9r/x.debug'}
+DIR_CLASSES = {'ascii': b'work', 'utf8': 'w\u00f6rk'.encode('utf-8'), 'latin1': b'w\xf6rk'}
+
+
+def h_stock_loader(ctx, kind, a):
+    """ELFFile.load_from_path + the stock make_relative_loader on real files: link names are BYTES in the file and need
+    not be UTF-8; the view must be the one obtained through an in-memory loader"""
+    from elftools.elf.elffile import ELFFile
+    main_src, linked_src, lk, nc, dc, pt, seed = a
+    elf, linked = _elf(_load(main_src)), _load(linked_src)
+    name = NAME_CLASSES[nc]
+    if lk == 'debuglink':
+        (c,) = yield [['crc', linked]]
+        (body,) = yield [['debuglink_body', elf.le, name, b'\0' * (3 - len(name) % 4), c[2]]]
+        main = strip_debug(elf, body)
+    elif lk == 'alt':
+        (body,) = yield [['altlink_body', name, bytes(range(20))]]
+        main = U.rewrite(elf, add=[dict(name=b'.gnu_debugaltlink', body=body)])
+    else:
+        (body,) = yield [['debugsup_body', elf.le, 5, 0, name, bytes([20]) + bytes(range(20))]]
+        main = U.rewrite(elf, add=[dict(name=b'.debug_sup', body=body)])
+    want = split_impl(impl_view(main, {name: linked}, True, True))[0]
+    d = tempfile.mkdtemp(prefix='pv-c11-').encode()
+    try:
+        base = os.path.join(d, DIR_CLASSES[dc])
+        os.makedirs(os.path.dirname(os.path.join(base, name)))
+        with open(os.path.join(base, b'main.elf'), 'wb') as f:
+            f.write(main)
+        with open(os.path.join(base, name), 'wb') as f:
+            f.write(linked)
+        path = os.path.join(base, b'main.elf')
+        if pt == 'str':
+            path = path.decode('utf-8')
+        try:
+            obj = ELFFile.load_from_path(path)
+            try:
+                got = split_impl(impl_view(None, None, True, True, elffile=obj))[0]
+            finally:
+                obj.close()
+        except Exception as ex:                          # noqa
+            got = ['err', type(ex).__name__]
+    finally:
+        shutil.rmtree(d, ignore_errors=True)
+    sup_or_link = want != 'rejected' and (lk == 'debuglink' or want[2] != 'none')
+    ctx.record(kind, a, impl=got, spec=want, model=None, in_domain=want != 'rejected', nontrivial=sup_or_link,
+               key='C11/stock-loader-view-differs')
+
+
 def h_seq(ctx, kind, a):
     """several get_dwarf_info calls on the SAME ELFFile object: each answer is the stateless view of its own
     (relocate, follow_links) — the model and the specification are functions of the arguments only"""
@@ -1275,6 +1412,6 @@ def h_linkparse(ctx, kind, a):
     ctx.record(kind, a, impl=impl, spec=spec, model=model, in_domain=complete, nontrivial=True, key='C11/debuglink-parse')
 
 
-HANDLERS = {'plain': h_plain, 'seq': h_seq, 'presence_tt': h_presence_tt, 'keepdebug': h_keepdebug, 'chain': h_chain, 'presence_file': h_presence_file, 'gabi': h_reencode, 'zgnu': h_reencode,
+HANDLERS = {'plain': h_plain, 'link_own': h_link_own, 'bigrun': h_bigrun, 'stock_loader': h_stock_loader, 'seq': h_seq, 'presence_tt': h_presence_tt, 'keepdebug': h_keepdebug, 'chain': h_chain, 'presence_file': h_presence_file, 'gabi': h_reencode, 'zgnu': h_reencode,
             'objcopy': h_objcopy, 'link': h_link, 'link_path': h_link_path, 'sup': h_sup, 'presence': h_presence,
             'synth': h_synth, 'zbad': h_bad, 'gbad': h_bad, 'crc': h_crc, 'crc_rand': h_crc, 'linkparse': h_linkparse}
